@@ -406,13 +406,17 @@ func resolveCase(features supportedFeatures, unresolvedCase *conformancev1.Confi
 		tlsCases = []bool{unresolvedCase.GetUseTls()}
 	}
 	if unresolvedCase.UseTlsClientCerts != nil {
-		if unresolvedCase.UseTls != nil && !unresolvedCase.GetUseTls() {
-			// use_tls explicitly set to false for this case?
-			return nil, errors.New("config case indicates use of TLS client certs but also indicates NOT using TLS")
-		}
-		if !contains(tlsCases, true) && !features.SupportsTLS {
-			// TLS not supported?
-			return nil, errors.New("config case indicates use of TLS client certs but TLS is not supported")
+		// Only a case that actually uses client certs requires TLS. Explicitly
+		// *not* using client certs is compatible with not using TLS.
+		if unresolvedCase.GetUseTlsClientCerts() {
+			if unresolvedCase.UseTls != nil && !unresolvedCase.GetUseTls() {
+				// use_tls explicitly set to false for this case?
+				return nil, errors.New("config case indicates use of TLS client certs but also indicates NOT using TLS")
+			}
+			if !contains(tlsCases, true) && !features.SupportsTLS {
+				// TLS not supported?
+				return nil, errors.New("config case indicates use of TLS client certs but TLS is not supported")
+			}
 		}
 		tlsClientCertCases = []bool{unresolvedCase.GetUseTlsClientCerts()}
 	}
